@@ -7,15 +7,15 @@ namespace Pm.Dev2
 The lemmas are stated on fully explicit constructor terms (every field a variable) so that they rewrite the unfolded
 bodies of their callers syntactically; `[]` is the canonical store both runs are compared with. -/
 
-theorem finishConnectOne_wx {f_plugs f_scripts f_timeout f_acts f_toBuf f_fromBuf f_xmStr f_xmOffs f_xmResult f_xmUsed f_nextUid f_shortCircuitDelay f_wake f_connected f_retryCount f_lastRetry f_conn f_loggedIn f_fd f_curAddr f_tstate f_tcmd f_statConnects f_statActions f_isPipe f_cpid f_pingPeriod f_lastPing} {env sys ab} (s : Store) :
-    finishConnectOne (⟨⟨f_plugs, f_scripts, f_timeout, f_acts, f_toBuf, f_fromBuf, f_xmStr, f_xmOffs, f_xmResult, f_xmUsed, s, f_nextUid, f_shortCircuitDelay, f_wake, f_connected, f_retryCount, f_lastRetry, f_conn, f_loggedIn, f_fd, f_curAddr, f_tstate, f_tcmd, f_statConnects, f_statActions, f_isPipe, f_cpid, f_pingPeriod, f_lastPing⟩, env, sys, ab⟩ : CS) = ((finishConnectOne (⟨⟨f_plugs, f_scripts, f_timeout, f_acts, f_toBuf, f_fromBuf, f_xmStr, f_xmOffs, f_xmResult, f_xmUsed, [], f_nextUid, f_shortCircuitDelay, f_wake, f_connected, f_retryCount, f_lastRetry, f_conn, f_loggedIn, f_fd, f_curAddr, f_tstate, f_tcmd, f_statConnects, f_statActions, f_isPipe, f_cpid, f_pingPeriod, f_lastPing⟩, env, sys, ab⟩ : CS)).1.withArgs s, (finishConnectOne (⟨⟨f_plugs, f_scripts, f_timeout, f_acts, f_toBuf, f_fromBuf, f_xmStr, f_xmOffs, f_xmResult, f_xmUsed, [], f_nextUid, f_shortCircuitDelay, f_wake, f_connected, f_retryCount, f_lastRetry, f_conn, f_loggedIn, f_fd, f_curAddr, f_tstate, f_tcmd, f_statConnects, f_statActions, f_isPipe, f_cpid, f_pingPeriod, f_lastPing⟩, env, sys, ab⟩ : CS)).2) := by
+theorem finishConnectOne_wx {f_plugs f_scripts f_timeout f_acts f_toBuf f_fromBuf f_xmStr f_xmOffs f_xmResult f_xmUsed f_nextUid f_shortCircuitDelay f_wake f_connected f_retryCount f_lastRetry f_conn f_loggedIn f_fd f_curAddr f_tstate f_tcmd f_statConnects f_statActions f_isPipe f_cpid f_pingPeriod f_lastPing f_fromSize} {env sys ab} (s : Store) :
+    finishConnectOne (⟨⟨f_plugs, f_scripts, f_timeout, f_acts, f_toBuf, f_fromBuf, f_xmStr, f_xmOffs, f_xmResult, f_xmUsed, s, f_nextUid, f_shortCircuitDelay, f_wake, f_connected, f_retryCount, f_lastRetry, f_conn, f_loggedIn, f_fd, f_curAddr, f_tstate, f_tcmd, f_statConnects, f_statActions, f_isPipe, f_cpid, f_pingPeriod, f_lastPing, f_fromSize⟩, env, sys, ab⟩ : CS) = ((finishConnectOne (⟨⟨f_plugs, f_scripts, f_timeout, f_acts, f_toBuf, f_fromBuf, f_xmStr, f_xmOffs, f_xmResult, f_xmUsed, [], f_nextUid, f_shortCircuitDelay, f_wake, f_connected, f_retryCount, f_lastRetry, f_conn, f_loggedIn, f_fd, f_curAddr, f_tstate, f_tcmd, f_statConnects, f_statActions, f_isPipe, f_cpid, f_pingPeriod, f_lastPing, f_fromSize⟩, env, sys, ab⟩ : CS)).1.withArgs s, (finishConnectOne (⟨⟨f_plugs, f_scripts, f_timeout, f_acts, f_toBuf, f_fromBuf, f_xmStr, f_xmOffs, f_xmResult, f_xmUsed, [], f_nextUid, f_shortCircuitDelay, f_wake, f_connected, f_retryCount, f_lastRetry, f_conn, f_loggedIn, f_fd, f_curAddr, f_tstate, f_tcmd, f_statConnects, f_statActions, f_isPipe, f_cpid, f_pingPeriod, f_lastPing, f_fromSize⟩, env, sys, ab⟩ : CS)).2) := by
   unfold finishConnectOne CS.withArgs withArgs
   dsimp only
   repeat' split
   all_goals first | rfl | simp_all
 
-theorem connectOne_wx {f_plugs f_scripts f_timeout f_acts f_toBuf f_fromBuf f_xmStr f_xmOffs f_xmResult f_xmUsed f_nextUid f_shortCircuitDelay f_wake f_connected f_retryCount f_lastRetry f_conn f_loggedIn f_fd f_curAddr f_tstate f_tcmd f_statConnects f_statActions f_isPipe f_cpid f_pingPeriod f_lastPing} {env sys ab} (s : Store) :
-    connectOne (⟨⟨f_plugs, f_scripts, f_timeout, f_acts, f_toBuf, f_fromBuf, f_xmStr, f_xmOffs, f_xmResult, f_xmUsed, s, f_nextUid, f_shortCircuitDelay, f_wake, f_connected, f_retryCount, f_lastRetry, f_conn, f_loggedIn, f_fd, f_curAddr, f_tstate, f_tcmd, f_statConnects, f_statActions, f_isPipe, f_cpid, f_pingPeriod, f_lastPing⟩, env, sys, ab⟩ : CS) = ((connectOne (⟨⟨f_plugs, f_scripts, f_timeout, f_acts, f_toBuf, f_fromBuf, f_xmStr, f_xmOffs, f_xmResult, f_xmUsed, [], f_nextUid, f_shortCircuitDelay, f_wake, f_connected, f_retryCount, f_lastRetry, f_conn, f_loggedIn, f_fd, f_curAddr, f_tstate, f_tcmd, f_statConnects, f_statActions, f_isPipe, f_cpid, f_pingPeriod, f_lastPing⟩, env, sys, ab⟩ : CS)).1.withArgs s, (connectOne (⟨⟨f_plugs, f_scripts, f_timeout, f_acts, f_toBuf, f_fromBuf, f_xmStr, f_xmOffs, f_xmResult, f_xmUsed, [], f_nextUid, f_shortCircuitDelay, f_wake, f_connected, f_retryCount, f_lastRetry, f_conn, f_loggedIn, f_fd, f_curAddr, f_tstate, f_tcmd, f_statConnects, f_statActions, f_isPipe, f_cpid, f_pingPeriod, f_lastPing⟩, env, sys, ab⟩ : CS)).2) := by
+theorem connectOne_wx {f_plugs f_scripts f_timeout f_acts f_toBuf f_fromBuf f_xmStr f_xmOffs f_xmResult f_xmUsed f_nextUid f_shortCircuitDelay f_wake f_connected f_retryCount f_lastRetry f_conn f_loggedIn f_fd f_curAddr f_tstate f_tcmd f_statConnects f_statActions f_isPipe f_cpid f_pingPeriod f_lastPing f_fromSize} {env sys ab} (s : Store) :
+    connectOne (⟨⟨f_plugs, f_scripts, f_timeout, f_acts, f_toBuf, f_fromBuf, f_xmStr, f_xmOffs, f_xmResult, f_xmUsed, s, f_nextUid, f_shortCircuitDelay, f_wake, f_connected, f_retryCount, f_lastRetry, f_conn, f_loggedIn, f_fd, f_curAddr, f_tstate, f_tcmd, f_statConnects, f_statActions, f_isPipe, f_cpid, f_pingPeriod, f_lastPing, f_fromSize⟩, env, sys, ab⟩ : CS) = ((connectOne (⟨⟨f_plugs, f_scripts, f_timeout, f_acts, f_toBuf, f_fromBuf, f_xmStr, f_xmOffs, f_xmResult, f_xmUsed, [], f_nextUid, f_shortCircuitDelay, f_wake, f_connected, f_retryCount, f_lastRetry, f_conn, f_loggedIn, f_fd, f_curAddr, f_tstate, f_tcmd, f_statConnects, f_statActions, f_isPipe, f_cpid, f_pingPeriod, f_lastPing, f_fromSize⟩, env, sys, ab⟩ : CS)).1.withArgs s, (connectOne (⟨⟨f_plugs, f_scripts, f_timeout, f_acts, f_toBuf, f_fromBuf, f_xmStr, f_xmOffs, f_xmResult, f_xmUsed, [], f_nextUid, f_shortCircuitDelay, f_wake, f_connected, f_retryCount, f_lastRetry, f_conn, f_loggedIn, f_fd, f_curAddr, f_tstate, f_tcmd, f_statConnects, f_statActions, f_isPipe, f_cpid, f_pingPeriod, f_lastPing, f_fromSize⟩, env, sys, ab⟩ : CS)).2) := by
   unfold connectOne CS.withArgs withArgs
   dsimp only
   split
@@ -39,8 +39,8 @@ theorem tcpConnect_eq (c : CS) : tcpConnect c =
   unfold tcpConnect tcpFin tcpTry
   rfl
 
-theorem tcpTry_wx {f_plugs f_scripts f_timeout f_acts f_toBuf f_fromBuf f_xmStr f_xmOffs f_xmResult f_xmUsed f_nextUid f_shortCircuitDelay f_wake f_connected f_retryCount f_lastRetry f_conn f_loggedIn f_fd f_curAddr f_tstate f_tcmd f_statConnects f_statActions f_isPipe f_cpid f_pingPeriod f_lastPing} {env sys ab} (s : Store) :
-    tcpTry (⟨(⟨f_plugs, f_scripts, f_timeout, f_acts, f_toBuf, f_fromBuf, f_xmStr, f_xmOffs, f_xmResult, f_xmUsed, s, f_nextUid, f_shortCircuitDelay, f_wake, f_connected, f_retryCount, f_lastRetry, f_conn, f_loggedIn, f_fd, f_curAddr, f_tstate, f_tcmd, f_statConnects, f_statActions, f_isPipe, f_cpid, f_pingPeriod, f_lastPing⟩ : Dev), env, sys, ab⟩ : CS) = (tcpTry (⟨(⟨f_plugs, f_scripts, f_timeout, f_acts, f_toBuf, f_fromBuf, f_xmStr, f_xmOffs, f_xmResult, f_xmUsed, [], f_nextUid, f_shortCircuitDelay, f_wake, f_connected, f_retryCount, f_lastRetry, f_conn, f_loggedIn, f_fd, f_curAddr, f_tstate, f_tcmd, f_statConnects, f_statActions, f_isPipe, f_cpid, f_pingPeriod, f_lastPing⟩ : Dev), env, sys, ab⟩ : CS)).withArgs s := by
+theorem tcpTry_wx {f_plugs f_scripts f_timeout f_acts f_toBuf f_fromBuf f_xmStr f_xmOffs f_xmResult f_xmUsed f_nextUid f_shortCircuitDelay f_wake f_connected f_retryCount f_lastRetry f_conn f_loggedIn f_fd f_curAddr f_tstate f_tcmd f_statConnects f_statActions f_isPipe f_cpid f_pingPeriod f_lastPing f_fromSize} {env sys ab} (s : Store) :
+    tcpTry (⟨(⟨f_plugs, f_scripts, f_timeout, f_acts, f_toBuf, f_fromBuf, f_xmStr, f_xmOffs, f_xmResult, f_xmUsed, s, f_nextUid, f_shortCircuitDelay, f_wake, f_connected, f_retryCount, f_lastRetry, f_conn, f_loggedIn, f_fd, f_curAddr, f_tstate, f_tcmd, f_statConnects, f_statActions, f_isPipe, f_cpid, f_pingPeriod, f_lastPing, f_fromSize⟩ : Dev), env, sys, ab⟩ : CS) = (tcpTry (⟨(⟨f_plugs, f_scripts, f_timeout, f_acts, f_toBuf, f_fromBuf, f_xmStr, f_xmOffs, f_xmResult, f_xmUsed, [], f_nextUid, f_shortCircuitDelay, f_wake, f_connected, f_retryCount, f_lastRetry, f_conn, f_loggedIn, f_fd, f_curAddr, f_tstate, f_tcmd, f_statConnects, f_statActions, f_isPipe, f_cpid, f_pingPeriod, f_lastPing, f_fromSize⟩ : Dev), env, sys, ab⟩ : CS)).withArgs s := by
   unfold tcpTry
   dsimp only
   rw [connectOne_wx]
@@ -49,8 +49,8 @@ theorem tcpTry_wx {f_plugs f_scripts f_timeout f_acts f_toBuf f_fromBuf f_xmStr 
   repeat' split
   all_goals first | rfl | simp_all
 
-theorem tcpFin_wx {f_plugs f_scripts f_timeout f_acts f_toBuf f_fromBuf f_xmStr f_xmOffs f_xmResult f_xmUsed f_nextUid f_shortCircuitDelay f_wake f_connected f_retryCount f_lastRetry f_conn f_loggedIn f_fd f_curAddr f_tstate f_tcmd f_statConnects f_statActions f_isPipe f_cpid f_pingPeriod f_lastPing} {env sys ab} (s : Store) :
-    tcpFin (⟨(⟨f_plugs, f_scripts, f_timeout, f_acts, f_toBuf, f_fromBuf, f_xmStr, f_xmOffs, f_xmResult, f_xmUsed, s, f_nextUid, f_shortCircuitDelay, f_wake, f_connected, f_retryCount, f_lastRetry, f_conn, f_loggedIn, f_fd, f_curAddr, f_tstate, f_tcmd, f_statConnects, f_statActions, f_isPipe, f_cpid, f_pingPeriod, f_lastPing⟩ : Dev), env, sys, ab⟩ : CS) = ((tcpFin (⟨(⟨f_plugs, f_scripts, f_timeout, f_acts, f_toBuf, f_fromBuf, f_xmStr, f_xmOffs, f_xmResult, f_xmUsed, [], f_nextUid, f_shortCircuitDelay, f_wake, f_connected, f_retryCount, f_lastRetry, f_conn, f_loggedIn, f_fd, f_curAddr, f_tstate, f_tcmd, f_statConnects, f_statActions, f_isPipe, f_cpid, f_pingPeriod, f_lastPing⟩ : Dev), env, sys, ab⟩ : CS)).1.withArgs s, (tcpFin (⟨(⟨f_plugs, f_scripts, f_timeout, f_acts, f_toBuf, f_fromBuf, f_xmStr, f_xmOffs, f_xmResult, f_xmUsed, [], f_nextUid, f_shortCircuitDelay, f_wake, f_connected, f_retryCount, f_lastRetry, f_conn, f_loggedIn, f_fd, f_curAddr, f_tstate, f_tcmd, f_statConnects, f_statActions, f_isPipe, f_cpid, f_pingPeriod, f_lastPing⟩ : Dev), env, sys, ab⟩ : CS)).2) := by
+theorem tcpFin_wx {f_plugs f_scripts f_timeout f_acts f_toBuf f_fromBuf f_xmStr f_xmOffs f_xmResult f_xmUsed f_nextUid f_shortCircuitDelay f_wake f_connected f_retryCount f_lastRetry f_conn f_loggedIn f_fd f_curAddr f_tstate f_tcmd f_statConnects f_statActions f_isPipe f_cpid f_pingPeriod f_lastPing f_fromSize} {env sys ab} (s : Store) :
+    tcpFin (⟨(⟨f_plugs, f_scripts, f_timeout, f_acts, f_toBuf, f_fromBuf, f_xmStr, f_xmOffs, f_xmResult, f_xmUsed, s, f_nextUid, f_shortCircuitDelay, f_wake, f_connected, f_retryCount, f_lastRetry, f_conn, f_loggedIn, f_fd, f_curAddr, f_tstate, f_tcmd, f_statConnects, f_statActions, f_isPipe, f_cpid, f_pingPeriod, f_lastPing, f_fromSize⟩ : Dev), env, sys, ab⟩ : CS) = ((tcpFin (⟨(⟨f_plugs, f_scripts, f_timeout, f_acts, f_toBuf, f_fromBuf, f_xmStr, f_xmOffs, f_xmResult, f_xmUsed, [], f_nextUid, f_shortCircuitDelay, f_wake, f_connected, f_retryCount, f_lastRetry, f_conn, f_loggedIn, f_fd, f_curAddr, f_tstate, f_tcmd, f_statConnects, f_statActions, f_isPipe, f_cpid, f_pingPeriod, f_lastPing, f_fromSize⟩ : Dev), env, sys, ab⟩ : CS)).1.withArgs s, (tcpFin (⟨(⟨f_plugs, f_scripts, f_timeout, f_acts, f_toBuf, f_fromBuf, f_xmStr, f_xmOffs, f_xmResult, f_xmUsed, [], f_nextUid, f_shortCircuitDelay, f_wake, f_connected, f_retryCount, f_lastRetry, f_conn, f_loggedIn, f_fd, f_curAddr, f_tstate, f_tcmd, f_statConnects, f_statActions, f_isPipe, f_cpid, f_pingPeriod, f_lastPing, f_fromSize⟩ : Dev), env, sys, ab⟩ : CS)).2) := by
   unfold tcpFin CS.withArgs withArgs
   dsimp only
   repeat' split
@@ -62,8 +62,8 @@ theorem tcpFin_wa (c : CS) (s : Store) : tcpFin (c.withArgs s) = ((tcpFin c).1.w
   repeat' split
   all_goals first | rfl | simp_all
 
-theorem tcpConnect_wx {f_plugs f_scripts f_timeout f_acts f_toBuf f_fromBuf f_xmStr f_xmOffs f_xmResult f_xmUsed f_nextUid f_shortCircuitDelay f_wake f_connected f_retryCount f_lastRetry f_conn f_loggedIn f_fd f_curAddr f_tstate f_tcmd f_statConnects f_statActions f_isPipe f_cpid f_pingPeriod f_lastPing} {env sys ab} (s : Store) :
-    tcpConnect (⟨(⟨f_plugs, f_scripts, f_timeout, f_acts, f_toBuf, f_fromBuf, f_xmStr, f_xmOffs, f_xmResult, f_xmUsed, s, f_nextUid, f_shortCircuitDelay, f_wake, f_connected, f_retryCount, f_lastRetry, f_conn, f_loggedIn, f_fd, f_curAddr, f_tstate, f_tcmd, f_statConnects, f_statActions, f_isPipe, f_cpid, f_pingPeriod, f_lastPing⟩ : Dev), env, sys, ab⟩ : CS) = ((tcpConnect (⟨(⟨f_plugs, f_scripts, f_timeout, f_acts, f_toBuf, f_fromBuf, f_xmStr, f_xmOffs, f_xmResult, f_xmUsed, [], f_nextUid, f_shortCircuitDelay, f_wake, f_connected, f_retryCount, f_lastRetry, f_conn, f_loggedIn, f_fd, f_curAddr, f_tstate, f_tcmd, f_statConnects, f_statActions, f_isPipe, f_cpid, f_pingPeriod, f_lastPing⟩ : Dev), env, sys, ab⟩ : CS)).1.withArgs s, (tcpConnect (⟨(⟨f_plugs, f_scripts, f_timeout, f_acts, f_toBuf, f_fromBuf, f_xmStr, f_xmOffs, f_xmResult, f_xmUsed, [], f_nextUid, f_shortCircuitDelay, f_wake, f_connected, f_retryCount, f_lastRetry, f_conn, f_loggedIn, f_fd, f_curAddr, f_tstate, f_tcmd, f_statConnects, f_statActions, f_isPipe, f_cpid, f_pingPeriod, f_lastPing⟩ : Dev), env, sys, ab⟩ : CS)).2) := by
+theorem tcpConnect_wx {f_plugs f_scripts f_timeout f_acts f_toBuf f_fromBuf f_xmStr f_xmOffs f_xmResult f_xmUsed f_nextUid f_shortCircuitDelay f_wake f_connected f_retryCount f_lastRetry f_conn f_loggedIn f_fd f_curAddr f_tstate f_tcmd f_statConnects f_statActions f_isPipe f_cpid f_pingPeriod f_lastPing f_fromSize} {env sys ab} (s : Store) :
+    tcpConnect (⟨(⟨f_plugs, f_scripts, f_timeout, f_acts, f_toBuf, f_fromBuf, f_xmStr, f_xmOffs, f_xmResult, f_xmUsed, s, f_nextUid, f_shortCircuitDelay, f_wake, f_connected, f_retryCount, f_lastRetry, f_conn, f_loggedIn, f_fd, f_curAddr, f_tstate, f_tcmd, f_statConnects, f_statActions, f_isPipe, f_cpid, f_pingPeriod, f_lastPing, f_fromSize⟩ : Dev), env, sys, ab⟩ : CS) = ((tcpConnect (⟨(⟨f_plugs, f_scripts, f_timeout, f_acts, f_toBuf, f_fromBuf, f_xmStr, f_xmOffs, f_xmResult, f_xmUsed, [], f_nextUid, f_shortCircuitDelay, f_wake, f_connected, f_retryCount, f_lastRetry, f_conn, f_loggedIn, f_fd, f_curAddr, f_tstate, f_tcmd, f_statConnects, f_statActions, f_isPipe, f_cpid, f_pingPeriod, f_lastPing, f_fromSize⟩ : Dev), env, sys, ab⟩ : CS)).1.withArgs s, (tcpConnect (⟨(⟨f_plugs, f_scripts, f_timeout, f_acts, f_toBuf, f_fromBuf, f_xmStr, f_xmOffs, f_xmResult, f_xmUsed, [], f_nextUid, f_shortCircuitDelay, f_wake, f_connected, f_retryCount, f_lastRetry, f_conn, f_loggedIn, f_fd, f_curAddr, f_tstate, f_tcmd, f_statConnects, f_statActions, f_isPipe, f_cpid, f_pingPeriod, f_lastPing, f_fromSize⟩ : Dev), env, sys, ab⟩ : CS)).2) := by
   rw [tcpConnect_eq, tcpConnect_eq]
   dsimp only
   split
@@ -72,15 +72,15 @@ theorem tcpConnect_wx {f_plugs f_scripts f_timeout f_acts f_toBuf f_fromBuf f_xm
     · rfl
     · rw [tcpTry_wx, tcpFin_wa]
 
-theorem pipeConnect_wx {f_plugs f_scripts f_timeout f_acts f_toBuf f_fromBuf f_xmStr f_xmOffs f_xmResult f_xmUsed f_nextUid f_shortCircuitDelay f_wake f_connected f_retryCount f_lastRetry f_conn f_loggedIn f_fd f_curAddr f_tstate f_tcmd f_statConnects f_statActions f_isPipe f_cpid f_pingPeriod f_lastPing} {env sys ab} (s : Store) :
-    pipeConnect (⟨(⟨f_plugs, f_scripts, f_timeout, f_acts, f_toBuf, f_fromBuf, f_xmStr, f_xmOffs, f_xmResult, f_xmUsed, s, f_nextUid, f_shortCircuitDelay, f_wake, f_connected, f_retryCount, f_lastRetry, f_conn, f_loggedIn, f_fd, f_curAddr, f_tstate, f_tcmd, f_statConnects, f_statActions, f_isPipe, f_cpid, f_pingPeriod, f_lastPing⟩ : Dev), env, sys, ab⟩ : CS) = ((pipeConnect (⟨(⟨f_plugs, f_scripts, f_timeout, f_acts, f_toBuf, f_fromBuf, f_xmStr, f_xmOffs, f_xmResult, f_xmUsed, [], f_nextUid, f_shortCircuitDelay, f_wake, f_connected, f_retryCount, f_lastRetry, f_conn, f_loggedIn, f_fd, f_curAddr, f_tstate, f_tcmd, f_statConnects, f_statActions, f_isPipe, f_cpid, f_pingPeriod, f_lastPing⟩ : Dev), env, sys, ab⟩ : CS)).1.withArgs s, (pipeConnect (⟨(⟨f_plugs, f_scripts, f_timeout, f_acts, f_toBuf, f_fromBuf, f_xmStr, f_xmOffs, f_xmResult, f_xmUsed, [], f_nextUid, f_shortCircuitDelay, f_wake, f_connected, f_retryCount, f_lastRetry, f_conn, f_loggedIn, f_fd, f_curAddr, f_tstate, f_tcmd, f_statConnects, f_statActions, f_isPipe, f_cpid, f_pingPeriod, f_lastPing⟩ : Dev), env, sys, ab⟩ : CS)).2) := by
+theorem pipeConnect_wx {f_plugs f_scripts f_timeout f_acts f_toBuf f_fromBuf f_xmStr f_xmOffs f_xmResult f_xmUsed f_nextUid f_shortCircuitDelay f_wake f_connected f_retryCount f_lastRetry f_conn f_loggedIn f_fd f_curAddr f_tstate f_tcmd f_statConnects f_statActions f_isPipe f_cpid f_pingPeriod f_lastPing f_fromSize} {env sys ab} (s : Store) :
+    pipeConnect (⟨(⟨f_plugs, f_scripts, f_timeout, f_acts, f_toBuf, f_fromBuf, f_xmStr, f_xmOffs, f_xmResult, f_xmUsed, s, f_nextUid, f_shortCircuitDelay, f_wake, f_connected, f_retryCount, f_lastRetry, f_conn, f_loggedIn, f_fd, f_curAddr, f_tstate, f_tcmd, f_statConnects, f_statActions, f_isPipe, f_cpid, f_pingPeriod, f_lastPing, f_fromSize⟩ : Dev), env, sys, ab⟩ : CS) = ((pipeConnect (⟨(⟨f_plugs, f_scripts, f_timeout, f_acts, f_toBuf, f_fromBuf, f_xmStr, f_xmOffs, f_xmResult, f_xmUsed, [], f_nextUid, f_shortCircuitDelay, f_wake, f_connected, f_retryCount, f_lastRetry, f_conn, f_loggedIn, f_fd, f_curAddr, f_tstate, f_tcmd, f_statConnects, f_statActions, f_isPipe, f_cpid, f_pingPeriod, f_lastPing, f_fromSize⟩ : Dev), env, sys, ab⟩ : CS)).1.withArgs s, (pipeConnect (⟨(⟨f_plugs, f_scripts, f_timeout, f_acts, f_toBuf, f_fromBuf, f_xmStr, f_xmOffs, f_xmResult, f_xmUsed, [], f_nextUid, f_shortCircuitDelay, f_wake, f_connected, f_retryCount, f_lastRetry, f_conn, f_loggedIn, f_fd, f_curAddr, f_tstate, f_tcmd, f_statConnects, f_statActions, f_isPipe, f_cpid, f_pingPeriod, f_lastPing, f_fromSize⟩ : Dev), env, sys, ab⟩ : CS)).2) := by
   unfold pipeConnect CS.withArgs withArgs
   dsimp only
   repeat' split
   all_goals first | rfl | simp_all
 
-theorem enqueueLogin_wx {f_plugs f_scripts f_timeout f_acts f_toBuf f_fromBuf f_xmStr f_xmOffs f_xmResult f_xmUsed f_nextUid f_shortCircuitDelay f_wake f_connected f_retryCount f_lastRetry f_conn f_loggedIn f_fd f_curAddr f_tstate f_tcmd f_statConnects f_statActions f_isPipe f_cpid f_pingPeriod f_lastPing} (s : Store) :
-    enqueueLogin (⟨f_plugs, f_scripts, f_timeout, f_acts, f_toBuf, f_fromBuf, f_xmStr, f_xmOffs, f_xmResult, f_xmUsed, s, f_nextUid, f_shortCircuitDelay, f_wake, f_connected, f_retryCount, f_lastRetry, f_conn, f_loggedIn, f_fd, f_curAddr, f_tstate, f_tcmd, f_statConnects, f_statActions, f_isPipe, f_cpid, f_pingPeriod, f_lastPing⟩ : Dev) = withArgs (enqueueLogin (⟨f_plugs, f_scripts, f_timeout, f_acts, f_toBuf, f_fromBuf, f_xmStr, f_xmOffs, f_xmResult, f_xmUsed, [], f_nextUid, f_shortCircuitDelay, f_wake, f_connected, f_retryCount, f_lastRetry, f_conn, f_loggedIn, f_fd, f_curAddr, f_tstate, f_tcmd, f_statConnects, f_statActions, f_isPipe, f_cpid, f_pingPeriod, f_lastPing⟩ : Dev)) s := by
+theorem enqueueLogin_wx {f_plugs f_scripts f_timeout f_acts f_toBuf f_fromBuf f_xmStr f_xmOffs f_xmResult f_xmUsed f_nextUid f_shortCircuitDelay f_wake f_connected f_retryCount f_lastRetry f_conn f_loggedIn f_fd f_curAddr f_tstate f_tcmd f_statConnects f_statActions f_isPipe f_cpid f_pingPeriod f_lastPing f_fromSize} (s : Store) :
+    enqueueLogin (⟨f_plugs, f_scripts, f_timeout, f_acts, f_toBuf, f_fromBuf, f_xmStr, f_xmOffs, f_xmResult, f_xmUsed, s, f_nextUid, f_shortCircuitDelay, f_wake, f_connected, f_retryCount, f_lastRetry, f_conn, f_loggedIn, f_fd, f_curAddr, f_tstate, f_tcmd, f_statConnects, f_statActions, f_isPipe, f_cpid, f_pingPeriod, f_lastPing, f_fromSize⟩ : Dev) = withArgs (enqueueLogin (⟨f_plugs, f_scripts, f_timeout, f_acts, f_toBuf, f_fromBuf, f_xmStr, f_xmOffs, f_xmResult, f_xmUsed, [], f_nextUid, f_shortCircuitDelay, f_wake, f_connected, f_retryCount, f_lastRetry, f_conn, f_loggedIn, f_fd, f_curAddr, f_tstate, f_tcmd, f_statConnects, f_statActions, f_isPipe, f_cpid, f_pingPeriod, f_lastPing, f_fromSize⟩ : Dev)) s := by
   unfold enqueueLogin withArgs loginAction
   dsimp only
 
@@ -88,8 +88,8 @@ theorem enqueueLogin_wa (d : Dev) (s : Store) : enqueueLogin (withArgs d s) = wi
   unfold enqueueLogin withArgs loginAction
   rfl
 
-theorem connectDev_wx {f_plugs f_scripts f_timeout f_acts f_toBuf f_fromBuf f_xmStr f_xmOffs f_xmResult f_xmUsed f_nextUid f_shortCircuitDelay f_wake f_connected f_retryCount f_lastRetry f_conn f_loggedIn f_fd f_curAddr f_tstate f_tcmd f_statConnects f_statActions f_isPipe f_cpid f_pingPeriod f_lastPing} {env sys ab} (s : Store) :
-    connectDev (⟨(⟨f_plugs, f_scripts, f_timeout, f_acts, f_toBuf, f_fromBuf, f_xmStr, f_xmOffs, f_xmResult, f_xmUsed, s, f_nextUid, f_shortCircuitDelay, f_wake, f_connected, f_retryCount, f_lastRetry, f_conn, f_loggedIn, f_fd, f_curAddr, f_tstate, f_tcmd, f_statConnects, f_statActions, f_isPipe, f_cpid, f_pingPeriod, f_lastPing⟩ : Dev), env, sys, ab⟩ : CS) = (connectDev (⟨(⟨f_plugs, f_scripts, f_timeout, f_acts, f_toBuf, f_fromBuf, f_xmStr, f_xmOffs, f_xmResult, f_xmUsed, [], f_nextUid, f_shortCircuitDelay, f_wake, f_connected, f_retryCount, f_lastRetry, f_conn, f_loggedIn, f_fd, f_curAddr, f_tstate, f_tcmd, f_statConnects, f_statActions, f_isPipe, f_cpid, f_pingPeriod, f_lastPing⟩ : Dev), env, sys, ab⟩ : CS)).withArgs s := by
+theorem connectDev_wx {f_plugs f_scripts f_timeout f_acts f_toBuf f_fromBuf f_xmStr f_xmOffs f_xmResult f_xmUsed f_nextUid f_shortCircuitDelay f_wake f_connected f_retryCount f_lastRetry f_conn f_loggedIn f_fd f_curAddr f_tstate f_tcmd f_statConnects f_statActions f_isPipe f_cpid f_pingPeriod f_lastPing f_fromSize} {env sys ab} (s : Store) :
+    connectDev (⟨(⟨f_plugs, f_scripts, f_timeout, f_acts, f_toBuf, f_fromBuf, f_xmStr, f_xmOffs, f_xmResult, f_xmUsed, s, f_nextUid, f_shortCircuitDelay, f_wake, f_connected, f_retryCount, f_lastRetry, f_conn, f_loggedIn, f_fd, f_curAddr, f_tstate, f_tcmd, f_statConnects, f_statActions, f_isPipe, f_cpid, f_pingPeriod, f_lastPing, f_fromSize⟩ : Dev), env, sys, ab⟩ : CS) = (connectDev (⟨(⟨f_plugs, f_scripts, f_timeout, f_acts, f_toBuf, f_fromBuf, f_xmStr, f_xmOffs, f_xmResult, f_xmUsed, [], f_nextUid, f_shortCircuitDelay, f_wake, f_connected, f_retryCount, f_lastRetry, f_conn, f_loggedIn, f_fd, f_curAddr, f_tstate, f_tcmd, f_statConnects, f_statActions, f_isPipe, f_cpid, f_pingPeriod, f_lastPing, f_fromSize⟩ : Dev), env, sys, ab⟩ : CS)).withArgs s := by
   unfold connectDev
   dsimp only
   split
@@ -107,8 +107,8 @@ theorem connectDev_wx {f_plugs f_scripts f_timeout f_acts f_toBuf f_fromBuf f_xm
     · simp only [hc, Bool.false_eq_true, ↓reduceIte]
 
 theorem connectDev_wa (c : CS) (s : Store) : connectDev (c.withArgs s) = (connectDev c).withArgs s := by
-  obtain ⟨⟨f_plugs, f_scripts, f_timeout, f_acts, f_toBuf, f_fromBuf, f_xmStr, f_xmOffs, f_xmResult, f_xmUsed, f_args, f_nextUid, f_shortCircuitDelay, f_wake, f_connected, f_retryCount, f_lastRetry, f_conn, f_loggedIn, f_fd, f_curAddr, f_tstate, f_tcmd, f_statConnects, f_statActions, f_isPipe, f_cpid, f_pingPeriod, f_lastPing⟩, env, sys, ab⟩ := c
-  show connectDev (⟨(⟨f_plugs, f_scripts, f_timeout, f_acts, f_toBuf, f_fromBuf, f_xmStr, f_xmOffs, f_xmResult, f_xmUsed, s, f_nextUid, f_shortCircuitDelay, f_wake, f_connected, f_retryCount, f_lastRetry, f_conn, f_loggedIn, f_fd, f_curAddr, f_tstate, f_tcmd, f_statConnects, f_statActions, f_isPipe, f_cpid, f_pingPeriod, f_lastPing⟩ : Dev), env, sys, ab⟩ : CS) = (connectDev (⟨(⟨f_plugs, f_scripts, f_timeout, f_acts, f_toBuf, f_fromBuf, f_xmStr, f_xmOffs, f_xmResult, f_xmUsed, f_args, f_nextUid, f_shortCircuitDelay, f_wake, f_connected, f_retryCount, f_lastRetry, f_conn, f_loggedIn, f_fd, f_curAddr, f_tstate, f_tcmd, f_statConnects, f_statActions, f_isPipe, f_cpid, f_pingPeriod, f_lastPing⟩ : Dev), env, sys, ab⟩ : CS)).withArgs s
+  obtain ⟨⟨f_plugs, f_scripts, f_timeout, f_acts, f_toBuf, f_fromBuf, f_xmStr, f_xmOffs, f_xmResult, f_xmUsed, f_args, f_nextUid, f_shortCircuitDelay, f_wake, f_connected, f_retryCount, f_lastRetry, f_conn, f_loggedIn, f_fd, f_curAddr, f_tstate, f_tcmd, f_statConnects, f_statActions, f_isPipe, f_cpid, f_pingPeriod, f_lastPing, f_fromSize⟩, env, sys, ab⟩ := c
+  show connectDev (⟨(⟨f_plugs, f_scripts, f_timeout, f_acts, f_toBuf, f_fromBuf, f_xmStr, f_xmOffs, f_xmResult, f_xmUsed, s, f_nextUid, f_shortCircuitDelay, f_wake, f_connected, f_retryCount, f_lastRetry, f_conn, f_loggedIn, f_fd, f_curAddr, f_tstate, f_tcmd, f_statConnects, f_statActions, f_isPipe, f_cpid, f_pingPeriod, f_lastPing, f_fromSize⟩ : Dev), env, sys, ab⟩ : CS) = (connectDev (⟨(⟨f_plugs, f_scripts, f_timeout, f_acts, f_toBuf, f_fromBuf, f_xmStr, f_xmOffs, f_xmResult, f_xmUsed, f_args, f_nextUid, f_shortCircuitDelay, f_wake, f_connected, f_retryCount, f_lastRetry, f_conn, f_loggedIn, f_fd, f_curAddr, f_tstate, f_tcmd, f_statConnects, f_statActions, f_isPipe, f_cpid, f_pingPeriod, f_lastPing, f_fromSize⟩ : Dev), env, sys, ab⟩ : CS)).withArgs s
   rw [connectDev_wx s, connectDev_wx f_args]
   rfl
 
@@ -149,8 +149,8 @@ theorem reconnectDev_wa (c : CS) (tmo : Option Time) (s : Store) :
 
 theorem finishConnectOne_wa (c : CS) (s : Store) :
     finishConnectOne (c.withArgs s) = ((finishConnectOne c).1.withArgs s, (finishConnectOne c).2) := by
-  obtain ⟨⟨f_plugs, f_scripts, f_timeout, f_acts, f_toBuf, f_fromBuf, f_xmStr, f_xmOffs, f_xmResult, f_xmUsed, f_args, f_nextUid, f_shortCircuitDelay, f_wake, f_connected, f_retryCount, f_lastRetry, f_conn, f_loggedIn, f_fd, f_curAddr, f_tstate, f_tcmd, f_statConnects, f_statActions, f_isPipe, f_cpid, f_pingPeriod, f_lastPing⟩, env, sys, ab⟩ := c
-  show finishConnectOne (⟨(⟨f_plugs, f_scripts, f_timeout, f_acts, f_toBuf, f_fromBuf, f_xmStr, f_xmOffs, f_xmResult, f_xmUsed, s, f_nextUid, f_shortCircuitDelay, f_wake, f_connected, f_retryCount, f_lastRetry, f_conn, f_loggedIn, f_fd, f_curAddr, f_tstate, f_tcmd, f_statConnects, f_statActions, f_isPipe, f_cpid, f_pingPeriod, f_lastPing⟩ : Dev), env, sys, ab⟩ : CS) = ((finishConnectOne (⟨(⟨f_plugs, f_scripts, f_timeout, f_acts, f_toBuf, f_fromBuf, f_xmStr, f_xmOffs, f_xmResult, f_xmUsed, f_args, f_nextUid, f_shortCircuitDelay, f_wake, f_connected, f_retryCount, f_lastRetry, f_conn, f_loggedIn, f_fd, f_curAddr, f_tstate, f_tcmd, f_statConnects, f_statActions, f_isPipe, f_cpid, f_pingPeriod, f_lastPing⟩ : Dev), env, sys, ab⟩ : CS)).1.withArgs s, (finishConnectOne (⟨(⟨f_plugs, f_scripts, f_timeout, f_acts, f_toBuf, f_fromBuf, f_xmStr, f_xmOffs, f_xmResult, f_xmUsed, f_args, f_nextUid, f_shortCircuitDelay, f_wake, f_connected, f_retryCount, f_lastRetry, f_conn, f_loggedIn, f_fd, f_curAddr, f_tstate, f_tcmd, f_statConnects, f_statActions, f_isPipe, f_cpid, f_pingPeriod, f_lastPing⟩ : Dev), env, sys, ab⟩ : CS)).2)
+  obtain ⟨⟨f_plugs, f_scripts, f_timeout, f_acts, f_toBuf, f_fromBuf, f_xmStr, f_xmOffs, f_xmResult, f_xmUsed, f_args, f_nextUid, f_shortCircuitDelay, f_wake, f_connected, f_retryCount, f_lastRetry, f_conn, f_loggedIn, f_fd, f_curAddr, f_tstate, f_tcmd, f_statConnects, f_statActions, f_isPipe, f_cpid, f_pingPeriod, f_lastPing, f_fromSize⟩, env, sys, ab⟩ := c
+  show finishConnectOne (⟨(⟨f_plugs, f_scripts, f_timeout, f_acts, f_toBuf, f_fromBuf, f_xmStr, f_xmOffs, f_xmResult, f_xmUsed, s, f_nextUid, f_shortCircuitDelay, f_wake, f_connected, f_retryCount, f_lastRetry, f_conn, f_loggedIn, f_fd, f_curAddr, f_tstate, f_tcmd, f_statConnects, f_statActions, f_isPipe, f_cpid, f_pingPeriod, f_lastPing, f_fromSize⟩ : Dev), env, sys, ab⟩ : CS) = ((finishConnectOne (⟨(⟨f_plugs, f_scripts, f_timeout, f_acts, f_toBuf, f_fromBuf, f_xmStr, f_xmOffs, f_xmResult, f_xmUsed, f_args, f_nextUid, f_shortCircuitDelay, f_wake, f_connected, f_retryCount, f_lastRetry, f_conn, f_loggedIn, f_fd, f_curAddr, f_tstate, f_tcmd, f_statConnects, f_statActions, f_isPipe, f_cpid, f_pingPeriod, f_lastPing, f_fromSize⟩ : Dev), env, sys, ab⟩ : CS)).1.withArgs s, (finishConnectOne (⟨(⟨f_plugs, f_scripts, f_timeout, f_acts, f_toBuf, f_fromBuf, f_xmStr, f_xmOffs, f_xmResult, f_xmUsed, f_args, f_nextUid, f_shortCircuitDelay, f_wake, f_connected, f_retryCount, f_lastRetry, f_conn, f_loggedIn, f_fd, f_curAddr, f_tstate, f_tcmd, f_statConnects, f_statActions, f_isPipe, f_cpid, f_pingPeriod, f_lastPing, f_fromSize⟩ : Dev), env, sys, ab⟩ : CS)).2)
   rw [finishConnectOne_wx s, finishConnectOne_wx f_args]
   rfl
 
@@ -178,6 +178,12 @@ theorem hrRead_wa (c : CS) (s : Store) : hrRead (c.withArgs s) = ((hrRead c).1.w
       · simp only [CS.withArgs, telnetFilter_wa]
   · rfl
   · rfl
+
+theorem clipRead_wa (c : CS) (s : Store) : clipRead (c.withArgs s) = (clipRead c).withArgs s := by
+  unfold clipRead
+  have h1 : (c.withArgs s).env = c.env := rfl
+  rw [h1]
+  split <;> rfl
 
 theorem hrWrite_wa (c : CS) (s : Store) : hrWrite (c.withArgs s) = ((hrWrite c).1.withArgs s, (hrWrite c).2) := by
   unfold hrWrite
@@ -210,7 +216,9 @@ theorem hrWrite_wa (c : CS) (s : Store) : hrWrite (c.withArgs s) = ((hrWrite c).
     rw [h2, h3]
     split
     · rfl
-    · split <;> rfl
+    · split
+      · split <;> rfl
+      · rfl
 
 theorem handleReady_wa (c : CS) (s : Store) : handleReady (c.withArgs s) = ((handleReady c).1.withArgs s, (handleReady c).2) := by
   rw [handleReady_eq, handleReady_eq]
@@ -236,11 +244,11 @@ theorem handleReady_wa (c : CS) (s : Store) : handleReady (c.withArgs s) = ((han
     split
     · rfl
     split
-    · rw [hrRead_wa]
+    · rw [clipRead_wa, hrRead_wa]
     · rfl
   · simp only [hw, Bool.false_eq_true, ↓reduceIte]
     split
-    · rw [hrRead_wa]
+    · rw [clipRead_wa, hrRead_wa]
     · rfl
 
 theorem ppReady_wa (d : Dev) (env : Env) (s : Store) :
